@@ -48,6 +48,7 @@ func TestVerifFilter(t *testing.T) {
 		class := fmt.Sprintf("display=%v,record=%v", display, record)
 		op := fmt.Sprintf("filter display=%v record=%v delay=%v stream=%s", display, record, delay, vhx(bs))
 		failure := ""
+		vMark(op)
 		func() {
 			defer func() {
 				if p := recover(); p != nil {
